@@ -152,7 +152,12 @@ func c20Run(c *run.C, capacity int) {
 	}
 	c.Begin(map[string]interface{}{"capacity": capacity, "type": t.String(), "keys": alphabet, "docs": ndocs, "path": path, "reenable_before_doc": reenable, "streams": streams})
 
+	reuseArena := cd != nil && r.P(1, 3)
+	if reuseArena {
+		c.Observe("sequences_from_one_reused_read_buffer", 1)
+	}
 	runAll := func(withCache bool) ([]reflect.Value, error, *lru, bool) {
+		var arena []byte
 		u, err := gotype.NewUnfolder(nil)
 		if err != nil {
 			return nil, err, nil, true
@@ -199,6 +204,18 @@ func c20Run(c *run.C, capacity int) {
 					return
 				}
 				chunk := r.Range(1, 64)
+				if reuseArena {
+					// one read buffer for every document of the sequence: the
+					// next document's bytes (other keys of the same lengths at
+					// the same offsets) replace this document's
+					if cap(arena) < len(buf) {
+						arena = make([]byte, 2*len(buf)+64)
+					}
+					b := arena[:len(buf):len(buf)]
+					copy(b, buf)
+					uerr = cd.Parse(b, u)
+					return
+				}
 				if !hook.Enabled {
 					// without the finalize hook only the one-shot entry point
 					// completes a document (counted containers, top-level numbers)
@@ -350,7 +367,7 @@ func init() {
 		Level: "exploration",
 		Rule: "sequences of 1..8 documents unfolded by ONE unfolder (EnableKeyCache called again with the same or another capacity before a fifth of the later documents) into map-typed targets (map[string]E, map[string]map[string]E, struct{M map[string]E; L []map[string]E}, []map[string]E for E in the 14 scalar kinds, interface{}, structs, pointers, slices, maps), " +
 			"object keys drawn from an alphabet of 2..12 keys (empty, one letter, shared long prefixes, non-ASCII, arbitrary bytes) so that capacities {0,1,2,3,5,8,64} see hits, misses, evictions and re-insertions after eviction; " +
-			"every key is delivered by reference from a buffer that is overwritten as soon as the callback returns (directly, or through the ubjson/cborl parser fed with scribbled chunks). " +
+			"every key is delivered by reference from a buffer that is overwritten afterwards: with filler as soon as the callback returns, or - as a producer with one read buffer does - by the next key / the next document of the sequence (other keys of the same length at the same place); directly, or through the ubjson/cborl parser. " +
 			"Oracle: each document's target with EnableKeyCache(n) == the target of an identical run without cache == the document's value (all earlier targets are re-read at the end, so a cached key whose bytes were overwritten would show). " +
 			"Suite capacities: the same with capacities {100, 1000, 4096, 2^16, 2^20, 2^31-1, 2^31, 2^32-1, 2^32, 2^40, 2^62+1, 2^63-1} and TotalAlloc measured around EnableKeyCache itself (<= 1 MiB: the capacity bounds the cache, it must not size an allocation; a worker killed by the allocation is a violation with the journaled case as witness). " +
 			"A reference LRU only counts hits/misses/evictions for this evidence. distinct_nontrivial = distinct (capacity, type, document sequence).",
